@@ -24,6 +24,8 @@ import Verif.Model.Constraints
   * `bundle_root_found`, `bundle_sound`   roots read from a PEM bundle: position in the bundle is irrelevant
   * `front_issues_iff`, `front_sound`, `front_client_error`   the HTTP sign/renew/rekey handlers,
                             ACME and SCEP (ACME included since 89421a7)
+  * `err_only_unparsable_email`, `refusal_is_typed`   a refusal for name constraints is the typed 403 error,
+                            through the flat lists and through the per-certificate engines alike
   * `validate_total`        no name makes the engine abort on subtrees a parsed certificate can carry
   * historic: `permitted_refuted` (D8), `permitted_partial`, `rootdrop_refuted`,
     `unparsable_dns_refuted`, `leadingdot_refuted` (O1), `v4mapped_refuted` (F3),
@@ -1447,5 +1449,102 @@ example : signVerdict .fields [caCert "int" "root" "k1" "k0" { pDNS := [s "examp
 /-- whatever the names, the gate allows a template of the extension kind -/
 theorem extension_always_allowed (ints roots : List Cert) (n : Names) :
     signVerdict .extension ints roots n = authorityValidateF ints roots {} := rfl
+
+/-! ## 16. The class of a refusal: name constraints are answered with the typed 403 error -/
+
+theorem firstBad_eq {α : Type} (f : α → Verdict) (l : List α) (v : Verdict) (hv : v ≠ .allow)
+    (h : firstBad f l = v) : ∃ a ∈ l, f a = v := by
+  induction l with
+  | nil => simp [firstBad] at h; exact absurd h.symm hv
+  | cons x xs ih =>
+    unfold firstBad at h
+    cases hx : f x with
+    | allow =>
+      rw [hx] at h
+      obtain ⟨a, ha, hfa⟩ := ih h
+      exact ⟨a, List.mem_cons_of_mem _ ha, hfa⟩
+    | deny r k => rw [hx] at h; exact ⟨x, List.mem_cons_self, by rw [hx]; exact h⟩
+    | errRfc822 => rw [hx] at h; exact ⟨x, List.mem_cons_self, by rw [hx]; exact h⟩
+    | crash => rw [hx] at h; exact ⟨x, List.mem_cons_self, by rw [hx]; exact h⟩
+
+theorem verdict_ne_err (o : Out) (k : Kind) : o.verdict k ≠ .errRfc822 := by
+  cases o <;> simp [Out.verdict]
+
+theorem validate_err (e : Engine) (n : Names) (h : validate e n = .errRfc822) :
+    ∃ a ∈ n.emails, specParseMailbox a = none := by
+  unfold validate at h
+  split at h
+  · cases h
+  · have hpre : preParse n ≠ .errRfc822 := by
+      intro hp
+      unfold preParse at hp
+      obtain ⟨d, _, hd⟩ := firstBad_eq _ _ _ (by simp) hp
+      split at hd <;> cases hd
+    cases hp : preParse n with
+    | allow =>
+      rw [hp] at h
+      simp only [] at h
+      unfold validateCore at h
+      cases h1 : firstBad (checkDNS e) n.dns with
+      | allow =>
+        rw [h1] at h; simp only [] at h
+        cases h2 : firstBad (checkIP e) n.ips with
+        | allow =>
+          rw [h2] at h; simp only [] at h
+          cases h3 : firstBad (checkEmail e) n.emails with
+          | allow =>
+            rw [h3] at h; simp only [] at h
+            obtain ⟨u, _, hu⟩ := firstBad_eq _ _ _ (by simp) h
+            unfold checkURI at hu
+            exact absurd hu (verdict_ne_err _ _)
+          | errRfc822 =>
+            obtain ⟨a, ha, hfa⟩ := firstBad_eq _ _ _ (by simp) h3
+            refine ⟨a, ha, ?_⟩
+            unfold checkEmail at hfa
+            cases hpm : specParseMailbox a with
+            | none => rfl
+            | some mb => rw [hpm] at hfa; exact absurd hfa (verdict_ne_err _ _)
+          | deny r k => rw [h3] at h; cases h
+          | crash => rw [h3] at h; cases h
+        | errRfc822 =>
+          obtain ⟨i, _, hi⟩ := firstBad_eq _ _ _ (by simp) h2
+          unfold checkIP at hi
+          exact absurd hi (verdict_ne_err _ _)
+        | deny r k => rw [h2] at h; cases h
+        | crash => rw [h2] at h; cases h
+      | errRfc822 =>
+        obtain ⟨d, _, hd⟩ := firstBad_eq _ _ _ (by simp) h1
+        unfold checkDNS at hd
+        exact absurd hd (verdict_ne_err _ _)
+      | deny r k => rw [h1] at h; cases h
+      | crash => rw [h1] at h; cases h
+    | deny r k => rw [hp] at h; cases h
+    | errRfc822 => exact absurd hp hpre
+    | crash => rw [hp] at h; cases h
+
+/-- **err_only_unparsable_email**: whatever the chain — one constrained certificate or several,
+    i.e. through the flat lists or through the per-certificate engines — `Validate` answers with
+    the untyped error (HTTP 500) only for an rfc822Name it cannot parse; every refusal *for name
+    constraints* is the typed ConstraintError (403). -/
+theorem err_only_unparsable_email (chain : List Level) (n : Names)
+    (h : validateF (NewF chain) n = .errRfc822) : ∃ a ∈ n.emails, specParseMailbox a = none := by
+  rw [fixed_eq_percert] at h
+  unfold validatePerCert at h
+  obtain ⟨l, _, hl⟩ := firstBad_eq _ _ _ (by simp) h
+  exact validate_err _ n hl
+
+/-- so with parsable rfc822Names a refusal is always a client error, nested constraints included -/
+theorem refusal_is_typed (chain : List Level) (n : Names)
+    (hm : ∀ a ∈ n.emails, specParseMailbox a ≠ none) (hc : validateF (NewF chain) n ≠ .crash)
+    (hr : validateF (NewF chain) n ≠ .allow) : ∃ r k, validateF (NewF chain) n = .deny r k := by
+  cases hv : validateF (NewF chain) n with
+  | allow => exact absurd hv hr
+  | deny r k => exact ⟨r, k, rfl⟩
+  | errRfc822 =>
+    obtain ⟨a, ha, hp⟩ := err_only_unparsable_email chain n hv
+    exact absurd hp (hm a ha)
+  | crash => exact absurd hv hc
+
+example : validateF (NewF d8Chain) d8Names = .deny .notPermitted .dns := by decide
 
 end Verif.Constraints
